@@ -84,6 +84,30 @@ pub struct TlsStream<IO>(pub tokio_native_tls::TlsStream<IO>);
         }),
 //@end
 
+// ===================================================================== the acceptor factory
+//@include ../common/tls_factory.rs
+//@check_struct file=actix-tls/src/accept/native_tls.rs name=Acceptor fields=acceptor,handshake_timeout
+//@extract_type file=actix-tls/src/accept/native_tls.rs item="struct Acceptor"
+impl Acceptor {
+//@extract file=actix-tls/src/accept/native_tls.rs item="impl Acceptor / fn new" ret=r props=C18 name=native_tls::Acceptor::new
+//@spec
+    ensures r.handshake_timeout.ns() == 3 * 1_000_000_000,   // [C18] default handshake timeout: 3 s
+//@end
+//@extract file=actix-tls/src/accept/native_tls.rs item="impl Acceptor / fn set_handshake_timeout" ret=r props=C18 name=native_tls::Acceptor::set_handshake_timeout
+//@spec
+    ensures r.handshake_timeout == handshake_timeout, r.acceptor == old(self).acceptor, *final(r) == *final(self),   // [C18]
+//@end
+//@extract file=actix-tls/src/accept/native_tls.rs item="impl Clone for Acceptor / fn clone" ret=r props=C18 name=native_tls::Acceptor::clone sig_replace="fn clone(=>fn clone_("
+//@spec
+    ensures r.handshake_timeout == self.handshake_timeout,   // [C18] a cloned factory keeps the configured timeout
+//@end
+//@extract file=actix-tls/src/accept/native_tls.rs item="impl<IO: ActixStream + 'static> ServiceFactory<IO> for Acceptor / fn new_service" ret=r props=C18 name=native_tls::Acceptor::new_service tls_with=MAX_CONN_COUNTER sig_replace="fn new_service(&self, _: ())=>fn new_service(&self, _unused: ())"
+//@spec
+    ensures
+        r.val matches Some(Ok(svc)) && svc.handshake_timeout == self.handshake_timeout && svc.conns.id() == thread_counter_id(),   // [C18]
+//@end
+}
+
 impl AcceptorService {
 //@extract file=actix-tls/src/accept/native_tls.rs item="impl<IO: ActixStream + 'static> Service<IO> for AcceptorService / fn poll_ready" ret=r props=C18 name=native_tls::poll_ready
 //@spec
